@@ -35,6 +35,8 @@ def main():
         import c12_map
         c12_map.run_map(run, drv)
         c12_map.run_map_ext(run)
+        if run.tier != "quick":
+            c12_map.probe_max_tasks_per_child(run)
         import c12_threads
         c12_threads.run_threads(run, drv)
     run.finish("proof")
